@@ -6,3 +6,5 @@ import BezierVerif.Props.C09
 import BezierVerif.Props.C10
 import BezierVerif.Props.C19
 import BezierVerif.Props.C18
+import BezierVerif.Props.C20S
+import BezierVerif.Props.C20
